@@ -37,7 +37,61 @@ fn g(f: impl FnOnce() -> bool) -> (bool, Option<String>) {
     }
 }
 
-pub fn run(_ctx: &Ctx) -> Report {
+pub fn run(ctx: &Ctx) -> Report {
+    let mut report = relations();
+    if !ctx.in_child {
+        // the same relations in the dev profile (debug assertions, overflow checks), in a child process
+        dev_pass(ctx, &mut report);
+        super::firstuse::run_children(ctx, "cards", 24, &mut report);
+    }
+    report
+}
+
+fn dev_pass(ctx: &Ctx, report: &mut Report) {
+    use crate::child::{self, ChildOutcome};
+    let exe = match Ctx::exe_for("debug") {
+        Some(e) => e,
+        None => {
+            report.inconclusive("no dev-profile binary available (VERIF_DEBUG_EXE not set)");
+            return;
+        }
+    };
+    let case = Json::obj().set("kind", Json::str("dev-all"));
+    match child::run_case(&exe, &ctx.id, &case, 8 << 20, std::time::Duration::from_secs(600)) {
+        ChildOutcome::Reported(doc) => {
+            let ev = report.evaluations;
+            child::merge_child_report(report, &doc, "debug:");
+            report.evaluations = ev;
+            report.count("dev_profile_pass", 1);
+        }
+        ChildOutcome::Crashed { signal, code, stack_overflow, stderr_tail } => report.violate(
+            "debug:crash".to_string(),
+            format!("[dev profile] the relation sweep died (signal {:?}, code {:?}, stack overflow {}): {}", signal, code, stack_overflow, stderr_tail),
+            case,
+        ),
+        ChildOutcome::Timeout { after_s } => report.inconclusive(format!("dev-profile pass timed out after {:.0}s", after_s)),
+        ChildOutcome::SpawnFailed(e) => report.inconclusive(format!("dev-profile pass: {}", e)),
+    }
+    child::cleanup_scratch();
+}
+
+/// A `fmt::Write` sink that fails after `left` bytes.
+struct FailingSink {
+    left: usize,
+}
+
+impl std::fmt::Write for FailingSink {
+    fn write_str(&mut self, s: &str) -> std::fmt::Result {
+        if s.len() > self.left {
+            self.left = 0;
+            return Err(std::fmt::Error);
+        }
+        self.left -= s.len();
+        Ok(())
+    }
+}
+
+fn relations() -> Report {
     let mut report = Report::new();
     report.rule = "every instance of every relation named by the property is enumerated once (card<->bit, card<->text, all 1- and 2-character ASCII strings, rank/suit<->number<->char, Ord, next/prev, every start<=end endpoint pair of RankRange/SuitRange); distinct = distinct (relation,input) pairs".into();
     report.exhaustive = Some(true);
@@ -209,6 +263,24 @@ pub fn run(_ctx: &Ctx) -> Report {
                     && (ca == cb) == (a == b)
             });
             r.check("card_order", &format!("{}{}", card_text(a), card_text(b)), ok, || p.unwrap_or_else(|| format!("{:?}", ca.cmp(&cb))));
+        }
+    }
+
+    // ---- text forms after a formatter call whose sink failed midway (on this thread)
+    for id in 0..52u8 {
+        use std::fmt::Write;
+        let other = card((id + 17) % 52);
+        for budget in [0usize, 1] {
+            let _ = catch(|| {
+                let mut sink = FailingSink { left: budget };
+                let _ = write!(&mut sink, "{}", other);
+                let _ = write!(&mut sink, "{:?}", other);
+                let _ = write!(&mut sink, "{}{}", other.rank(), other.suit());
+            });
+            let t = catch(|| card(id).to_string()).unwrap_or_else(|p| format!("<panic {}>", p));
+            r.check("card_to_text_after_failed_write", &format!("{}:{}", card_text(id), budget), t == card_text(id), || format!("formats as '{}'", t));
+            let back = catch(|| t.parse::<Card>().ok());
+            r.check("text_round_trip_after_failed_write", &format!("{}:{}", card_text(id), budget), back == Ok(Some(card(id))), || format!("'{}' parses to {:?}", t, back));
         }
     }
 
